@@ -15,7 +15,7 @@ ENVQ = {}
 def cfgs(tier):
     if tier == "quick":
         out = [Cfg(b, *t) for b in ALL_BACKENDS for t in ((4, 2, 4), (3, 3, 3), (2, 1, 2))]
-        out += [Cfg("generic", 4, 2, 4, checker=True), Cfg("generic", 2, 2, 2, checker=True)]
+        out += [Cfg("generic", 4, 2, 4, checker=True), Cfg("generic", 2, 2, 2, checker=True), Cfg("generic", 3, 1, 3, checker=True)]
         return out
     out = [Cfg(b, *t) for b in ALL_BACKENDS for t in share_tuples()]
     out += [Cfg("generic", *t, checker=True) for t in ((4, 2, 4), (3, 3, 3), (2, 1, 2), (4, 4, 4), (3, 1, 3))]
@@ -61,14 +61,39 @@ def run(tier):
     ncalls = 600 if tier == "quick" else 1500
     td = rcrun.tmpdir()
     jobs = []
+    # Known finding (see known_findings.json): with DATA_SHARES=1 the masked AEAD keeps its plain state acquired
+    # while it draws randomness, which the balance checker rejects.  In those checker configurations the masked
+    # call groups are excluded by construction (and counted) so that the rest is still searched; a separate probe
+    # run confirms that the finding still fails.
+    def ds1_checker(name):
+        return "-chk" in name and name.split("-")[1][1] == "1"
     for sd in seeds:
         for name, binp in b:
             tp = os.path.join(td, "t-%s-%d.txt" % (name, sd))
-            jobs.append({"cmd": [binp, "--only", "c09_workload", "--out", tp + ".stats"], "env": {"RC_PARAMS": "seed=%d max_success=%d max_size=100" % (sd, ncalls), "VERIF_TRANSCRIPT": tp},
+            env = {"RC_PARAMS": "seed=%d max_success=%d max_size=100" % (sd, ncalls), "VERIF_TRANSCRIPT": tp}
+            if ds1_checker(name):
+                env["VERIF_MASKED_GROUPS"] = "skip"
+                ev.extra["masked_groups_excluded_in"] = sorted(set(ev.extra.get("masked_groups_excluded_in", []) + [name]))
+                if sd == seeds[0]:
+                    jobs.append({"cmd": [binp, "--only", "c09_workload"], "env": {"RC_PARAMS": "seed=%d max_success=%d max_size=100" % (sd, ncalls), "VERIF_MASKED_GROUPS": "only"},
+                                 "timeout": 3000, "tp": tp + ".probe", "cfg": name, "seed": sd, "bin": binp, "probe": True})
+            jobs.append({"cmd": [binp, "--only", "c09_workload", "--out", tp + ".stats"], "env": env,
                          "timeout": 3000, "tp": tp, "cfg": name, "seed": sd, "bin": binp})
     res = run_parallel(jobs)
     transcripts = collections.defaultdict(dict)
     for j, rc, out in res:
+        if j.get("probe"):
+            if rc != 0:
+                key = "abort:checker-data_shares=1:masked-aead"
+                f = match_finding(PROP, key)
+                if f:
+                    line = "%s [%s]" % (f["what"], key)
+                    if line not in ev.known:
+                        ev.known.append(line)
+                else:
+                    obj = {"kind": "crash", "property": "c09_workload", "config": j["cfg"], "cmd": j["cmd"], "env": j["env"], "output": out[-3000:], "check": PROP}
+                    ev.violations.append({"replay": save_replay(PROP, obj), "message": "[%s] masked AEAD call groups abort under the balance checker: %s" % (j["cfg"], out[-300:]), "key": key})
+            continue
         if rc != 0 or not os.path.exists(j["tp"]):
             key = "abort:%s" % ("checker" if "-chk" in j["cfg"] else j["cfg"].split("-")[0])
             obj = {"kind": "crash", "property": "c09_workload", "config": j["cfg"], "cmd": j["cmd"], "env": j["env"], "output": out[-3000:], "check": PROP}
@@ -97,13 +122,17 @@ def run(tier):
             continue
         n = min(len(v) for v in per.values())
         for i in range(n):
-            digests = collections.Counter(v[i].split("\t")[0] for v in per.values())
+            EXCL = "96582637"    # sentinel written for call groups excluded by construction (see above)
+            digests = collections.Counter(v[i].split("\t")[0] for v in per.values() if v[i].split("\t")[0] != EXCL)
+            nexcl = sum(1 for v in per.values() if v[i].split("\t")[0] == EXCL)
+            if nexcl:
+                ev.classes["excluded-masked-call-in-ds1-checker-build"] = ev.classes.get("excluded-masked-call-in-ds1-checker-build", 0) + nexcl
             if len(digests) == 1:
                 continue
             ref_digest = digests.most_common(1)[0][0]
             for cfgname, v in per.items():
                 dg, case = v[i].split("\t", 1)
-                if dg == ref_digest:
+                if dg == ref_digest or dg == EXCL:
                     continue
                 case = json.loads(case)
                 static = {0: "aead", 1: "aead-inc", 2: "aead-masked", 3: "siv", 4: "isap", 5: "hash", 6: "xof", 7: "prf", 8: "hmac", 9: "kmac", 10: "hkdf",
